@@ -91,7 +91,23 @@ def _mk_opcond(case):
     cooling = {"rate": case["rate"], "start": case["start"], "end": case["stop"]}
     holds = case["holds"]
     holding = None if holds is None else [dict(temp=h[0], duration=h[1]) for h in holds]
-    return OperatingConditions(t_tot=case["t_tot"], cooling=cooling, holding=holding, cnTemp=case.get("cn"))
+    return OperatingConditions(t_tot=case["t_tot"], cooling=cooling, holding=holding, cnTemp=_typed_cn(case))
+
+
+def _typed_cn(case):
+    """cnTemp in the Python/numpy type the case asks for; case["cn"] always holds its exact numeric value"""
+    v, t = case.get("cn"), case.get("cn_pytype")
+    if v is None or not t:
+        return v
+    if t == "int":
+        return int(v)
+    if t == "npfloat64":
+        return np.float64(v)
+    if t == "npfloat32":
+        return np.float32(v)  # case["cn"] was generated as float(np.float32(x)): exact
+    if t == "array0d":
+        return np.array(v)
+    return float(v)
 
 
 # ---------------------------------------------------------------------------
@@ -276,7 +292,8 @@ def _pred_cnt(case, impl):
         out.append(Failure(clause="cnt_is_last", key=f"cnt_is_last|{site}|",
                            detail=f"cnt={cnt} but the last second with T >= {cn} is {want}"))
     if idx and case["stop"] <= cn <= case["start"] and not tie:
-        if any(T1[j] < cn for j in range(cnt + 1)):
+        # (a ramp that ends one ulp below the hold temperature it runs into is rounding, not a dip: rtol 1e-9)
+        if any(T1[j] < cn - 1e-9 * max(1.0, abs(cn)) for j in range(cnt + 1)):
             out.append(Failure(clause="cnt_is_last", key=f"cnt_is_last|{site}|below-before",
                                detail="the shelf is below cnTemp at a second before cnt"))
     if case["stop"] <= cn <= case["start"]:
@@ -742,6 +759,8 @@ def classify(case, impl):
             tags.append("fired=" + ("all-liquid" if nfire == nl else "none" if nfire == 0 else "some-not-supercooled"))
         return tags
     tags.append(f"cnkind={case.get('cnkind')}")
+    if case.get("cn_pytype"):
+        tags.append("cnTemp type=" + case["cn_pytype"])
     tags.append(f"holds={len(case['holds'] or [])}")
     if case.get("exact"):
         tags.append("exact")
@@ -797,6 +816,26 @@ def _with_cn(rng, prog, exact=False):
     c["dt"] = rng.choice([0.5, 1, 2, 4] if exact else [0.5, 1, 2, 3, 5, 7])
     c["kind"] = "cnt"
     return c
+
+
+DECIMALS = [-4.3, -4.4, -5.3, -5.8, -10.1, -42.7, -0.1, -7.7, -12.9, -3.3, -9.6, -20.2, -5.0, -8.0]
+
+
+def _decimal(rng):
+    """hold temperatures with ONE decimal that are not binary fractions, cnTemp EQUAL to one of them, passed as
+    Python float / int / numpy float64 / numpy float32 / 0-d array (sweeps built with np.linspace / np.arange)"""
+    start, stop = rng.choice([20, 5, 0.5]), rng.choice([-50, -45.5])
+    temps = rng.sample(DECIMALS, rng.choice([1, 1, 2, 3]))
+    holds = [[T, rng.choice([30, 60, 120, 600, 900])] for T in temps]
+    rate = rng.choice([0.1, 0.25, 0.5, 1.0, 0.3])
+    cn = rng.choice(temps)
+    typ = rng.choice(["float", "npfloat64", "npfloat64", "npfloat32", "array0d"] + (["int"] if float(cn).is_integer() else []))
+    if typ == "npfloat32":
+        cn = float(np.float32(cn))
+    ramp = (start - stop) / rate + sum(h[1] for h in holds)
+    t_tot = rng.choice([ramp + 200, ramp * 0.7, ramp + 1000.5])
+    return dict(kind="cnt", cnkind="hold-decimal", cn_pytype=typ, t_tot=t_tot, start=start, stop=stop, rate=rate,
+                holds=holds, isList=True, cn=cn, dt=rng.choice([0.5, 1, 2, 3, 5, 7]))
 
 
 def _longprog(rng):
@@ -880,6 +919,8 @@ def cases(rng, tier):
         yield _pair(rng, big=(tier != "quick"))
     for _ in range(1 if tier == "quick" else 4):
         yield _longprog(rng)
+    for _ in range(300 if tier == "quick" else 6000):
+        yield _decimal(rng)
     n_h, n_hr = (150, 16) if tier == "quick" else (3000, 200)
     for _ in range(n_h):
         yield _hist(rng)
